@@ -37,10 +37,36 @@ import (
 
 type c35ID struct {
 	base, serial uint64
+	isd          uint64 // 0 = ISD 1 (the ISD the notifications are about)
 }
 
-func (i c35ID) String() string { return fmt.Sprintf("B%d-S%d", i.base, i.serial) }
+func (i c35ID) isdNum() uint64 {
+	if i.isd == 0 {
+		return 1
+	}
+	return i.isd
+}
 
+func (i c35ID) String() string {
+	if i.isdNum() != 1 {
+		return fmt.Sprintf("ISD%d-B%d-S%d", i.isdNum(), i.base, i.serial)
+	}
+	return fmt.Sprintf("B%d-S%d", i.base, i.serial)
+}
+
+func (i c35ID) file() string { return fmt.Sprintf("ISD%d-B%d-S%d.trc", i.isdNum(), i.base, i.serial) }
+
+func c35I(base, serial uint64) c35ID { return c35ID{base: base, serial: serial} }
+
+func c35FromTRC(id cppki.TRCID) c35ID {
+	out := c35ID{base: uint64(id.Base), serial: uint64(id.Serial)}
+	if id.ISD != 1 {
+		out.isd = uint64(id.ISD)
+	}
+	return out
+}
+
+// c35Less orders TRC ids of ONE ISD.
 func c35Less(a, b c35ID) bool {
 	if a.base != b.base {
 		return a.base < b.base
@@ -67,8 +93,19 @@ type c35World struct {
 	// starts: hours after the bubble epoch at which the TRC's validity starts
 	starts map[c35ID]float64
 	byRaw  map[string]string // raw signed TRC -> "B1-S2:legit"
-	dirs   [3]string
-	dirIDs [3][]c35ID
+	dirs   [c35NDirs]string
+	dirIDs [c35NDirs][]c35ID
+	matrix []c35MatrixTRC
+}
+
+const c35NDirs = 4
+
+// c35MatrixTRC: one TRC of the directory-loading matrix (kind x validity start relative to the epoch).
+type c35MatrixTRC struct {
+	kind   string
+	id     c35ID
+	start  time.Duration
+	signed cppki.SignedTRC
 }
 
 func c35Epoch() time.Time { return time.Date(2000, 1, 1, 0, 0, 0, 0, time.UTC) }
@@ -105,19 +142,33 @@ func c35Build(t *testing.T) (*c35World, error) {
 	c4 := []*pkigen.Cert{sens[0], sens[1], sens[2], reg[0], reg[1], reg2b, root0b, root1}
 	c5 := []*pkigen.Cert{sens[0], sens[1], sens[2], reg[0], reg[1], reg2b, root0b, root1b}
 	voters := []*pkigen.Cert{sens[0], sens[1], sens[2], reg[0], reg[1], reg[2]}
+	// ISD 2: own certificates
+	ia2 := addr.MustParseIA("2-ff00:0:210")
+	var votersB []*pkigen.Cert
+	for i := 0; i < 3; i++ {
+		votersB = append(votersB, pkigen.Sensitive(ia2, fmt.Sprintf("c35 isd2 sens %d", i), cv))
+	}
+	for i := 0; i < 3; i++ {
+		votersB = append(votersB, pkigen.Regular(ia2, fmt.Sprintf("c35 isd2 reg %d", i), cv))
+	}
+	c0b := append(append([]*pkigen.Cert{}, votersB...), pkigen.Root(ia2, "c35 isd2 root 0", cv), pkigen.Root(ia2, "c35 isd2 root 1", cv))
+	coreB := []addr.AS{ia2.AS()}
 	core1, core2 := []addr.AS{ia.AS()}, []addr.AS{ia.AS(), 0xff00_0000_0111}
 	steps := []step{
-		{c35ID{1, 1}, -10, c0, nil, voters, core1},
-		{c35ID{1, 2}, -9, c0, []int{3, 4}, []*pkigen.Cert{reg[0], reg[1]}, core1},                       // regular, nothing changes
-		{c35ID{1, 3}, -8, c3, []int{0, 1}, []*pkigen.Cert{sens[0], sens[1]}, core2},                     // sensitive: root 0 re-keyed, core AS added
-		{c35ID{1, 4}, 10, c4, []int{3, 5}, []*pkigen.Cert{reg[0], reg[2], reg2b}, core2},                // regular: voter re-keyed; starts in the future
-		{c35ID{1, 5}, 20, c5, []int{3, 4, 5}, []*pkigen.Cert{reg[0], reg[1], reg2b, root1}, core2},     // regular: root 1 renewed (acknowledged)
-		{c35ID{3, 3}, -5, c0, nil, voters, core1},                                                         // trust reset: new base
-		{c35ID{3, 4}, -4, c0, []int{4, 5}, []*pkigen.Cert{reg[1], reg[2]}, core1},                       // its first update
+		{c35I(1, 1), -10, c0, nil, voters, core1},
+		{c35I(1, 2), -9, c0, []int{3, 4}, []*pkigen.Cert{reg[0], reg[1]}, core1},                  // regular, nothing changes
+		{c35I(1, 3), -8, c3, []int{0, 1}, []*pkigen.Cert{sens[0], sens[1]}, core2},                // sensitive: root 0 re-keyed, core AS added
+		{c35I(1, 4), 10, c4, []int{3, 5}, []*pkigen.Cert{reg[0], reg[2], reg2b}, core2},           // regular: voter re-keyed; starts in the future
+		{c35I(1, 5), 20, c5, []int{3, 4, 5}, []*pkigen.Cert{reg[0], reg[1], reg2b, root1}, core2}, // regular: root 1 renewed (acknowledged)
+		{c35I(3, 3), -5, c0, nil, voters, core1},                                                  // trust reset: new base
+		{c35I(3, 4), -4, c0, []int{4, 5}, []*pkigen.Cert{reg[1], reg[2]}, core1},                  // its first update
+		{c35I(3, 5), 12, c0, []int{0, 1}, []*pkigen.Cert{sens[0], sens[1]}, core2},                // sensitive update (core AS added); future / now / past at the three clock phases
+		{c35I(5, 5), 12, c0, nil, voters, core1},                                                  // a second trust reset, dated 12 h ahead
+		{c35ID{base: 1, serial: 1, isd: 2}, 12, c0b, nil, votersB, coreB},                         // base TRC of an ISD the store does not know, dated 12 h ahead
 	}
 	payload := func(s step) cppki.TRC {
-		p := cppki.TRC{Version: 1, ID: cppki.TRCID{ISD: 1, Base: scrypto.Version(s.id.base), Serial: scrypto.Version(s.id.serial)},
-			Validity: val(s.start), Quorum: 2, CoreASes: s.cores, AuthoritativeASes: []addr.AS{ia.AS()},
+		p := cppki.TRC{Version: 1, ID: cppki.TRCID{ISD: addr.ISD(s.id.isdNum()), Base: scrypto.Version(s.id.base), Serial: scrypto.Version(s.id.serial)},
+			Validity: val(s.start), Quorum: 2, CoreASes: s.cores, AuthoritativeASes: s.cores[:1],
 			Description: "c35 " + s.id.String(), Votes: s.votes, Certificates: pkigen.Certs(s.certs...)}
 		if s.id.base != s.id.serial {
 			p.GracePeriod = time.Hour
@@ -175,15 +226,49 @@ func c35Build(t *testing.T) (*c35World, error) {
 	for id, s := range w.invalid {
 		w.byRaw[string(s.Raw)] = id.String() + ":invalid-successor"
 	}
+	// directory-loading matrix: every TRC kind x validity start relative to the epoch
+	for _, start := range []time.Duration{-time.Hour, 0, time.Second, 12 * time.Hour} {
+		for _, k := range []struct {
+			kind string
+			st   step
+			pred *c35ID
+		}{
+			{"base-of-unknown-isd", step{c35ID{base: 1, serial: 1, isd: 2}, 0, c0b, nil, votersB, coreB}, nil},
+			{"trust-reset-base", step{c35I(5, 5), 0, c0, nil, voters, core1}, nil},
+			{"regular-update", step{c35I(1, 4), 0, c4, []int{3, 5}, []*pkigen.Cert{reg[0], reg[2], reg2b}, core2}, &c35ID{base: 1, serial: 3}},
+			{"sensitive-update", step{c35I(1, 4), 0, c3, []int{0, 1}, []*pkigen.Cert{sens[0], sens[1]}, core1}, &c35ID{base: 1, serial: 3}},
+		} {
+			pld := payload(k.st)
+			pld.Validity.NotBefore = e.Add(start)
+			pld.Description = fmt.Sprintf("c35 matrix %s start %v", k.kind, start)
+			signed, err := pkigen.Sign(pld, k.st.signers...)
+			if err != nil {
+				return nil, fmt.Errorf("signing matrix TRC %s: %w", k.kind, err)
+			}
+			var pred *cppki.TRC
+			if k.pred != nil {
+				p := w.legit[*k.pred].TRC
+				pred = &p
+			}
+			if err := signed.Verify(pred); err != nil {
+				return nil, fmt.Errorf("matrix TRC %s (start %v) does not verify: %w", k.kind, start, err)
+			}
+			if !signed.TRC.Validity.NotBefore.Equal(e.Add(start)) {
+				return nil, fmt.Errorf("matrix TRC %s: validity start %v, want epoch%+v", k.kind, signed.TRC.Validity.NotBefore, start)
+			}
+			w.matrix = append(w.matrix, c35MatrixTRC{k.kind, k.st.id, start, signed})
+		}
+	}
 	// directories for LoadTRCs
-	w.dirIDs = [3][]c35ID{{{1, 1}}, {{1, 2}, {1, 4}}, {{3, 3}, {1, 5}}}
+	w.dirIDs = [c35NDirs][]c35ID{{c35I(1, 1)}, {c35I(1, 2), c35I(1, 4)}, {c35I(3, 3), c35I(1, 5)},
+		{c35I(3, 5), c35I(5, 5), {base: 1, serial: 1, isd: 2}}}
 	for i, ids := range w.dirIDs {
 		w.dirs[i] = filepath.Join(t.TempDir(), fmt.Sprintf("dir%d", i))
 		if err := os.MkdirAll(w.dirs[i], 0o755); err != nil {
 			return nil, err
 		}
 		for _, id := range ids {
-			f := filepath.Join(w.dirs[i], fmt.Sprintf("ISD1-B%d-S%d.trc", id.base, id.serial))
+			f := filepath.Join(w.dirs[i], id.file())
 			if err := os.WriteFile(f, w.legit[id].Raw, 0o644); err != nil {
 				return nil, err
 			}
@@ -279,7 +364,7 @@ func c35Menu() []c35Ev {
 	for _, d := range []int{0, 1, 2} {
 		m = append(m, c35Ev{kind: c35Notify, delta: d, otherBase: true})
 	}
-	for dir := 0; dir < 3; dir++ {
+	for dir := 0; dir < c35NDirs; dir++ {
 		m = append(m, c35Ev{kind: c35Load, dir: dir})
 	}
 	m = append(m, c35Ev{kind: c35Advance})
@@ -300,7 +385,7 @@ func (f *c35Fetcher) Chains(context.Context, trust.ChainQuery, net.Addr) ([][]*x
 }
 
 func (f *c35Fetcher) TRC(_ context.Context, id cppki.TRCID, _ net.Addr) (cppki.SignedTRC, error) {
-	want := c35ID{uint64(id.Base), uint64(id.Serial)}
+	want := c35FromTRC(id)
 	f.calls = append(f.calls, want)
 	fault := c35FaultNone
 	if len(f.calls) == f.faultAt && f.fault != c35FaultStore {
@@ -318,7 +403,7 @@ func (f *c35Fetcher) TRC(_ context.Context, id cppki.TRCID, _ net.Addr) (cppki.S
 			return s, nil
 		}
 	case c35FaultWrongID:
-		for _, alt := range []c35ID{{want.base, want.serial + 1}, {want.base, want.serial - 1}} {
+		for _, alt := range []c35ID{c35I(want.base, want.serial+1), c35I(want.base, want.serial-1)} {
 			if s, ok := f.w.legit[alt]; ok {
 				return s, nil
 			}
@@ -358,6 +443,9 @@ func (m *c35Model) latest() (c35ID, bool) {
 	var best c35ID
 	found := false
 	for id := range m.stored {
+		if id.isdNum() != 1 {
+			continue
+		}
 		if !found || c35Less(best, id) {
 			best, found = id, true
 		}
@@ -378,7 +466,7 @@ func (m *c35Model) notify(id c35ID, faultAt int) (wantErr bool, fetches []c35ID)
 		return false, nil
 	}
 	for s := lat.serial + 1; s <= id.serial; s++ {
-		next := c35ID{id.base, s}
+		next := c35I(id.base, s)
 		fetches = append(fetches, next)
 		if len(fetches) == faultAt {
 			return true, fetches // every fault kind makes this step fail
@@ -417,30 +505,29 @@ func c35Replay(t *testing.T, r *mc.Run, w *c35World, hist []c35Ev) (canon string
 		defer d.Close()
 		ctx := context.Background()
 		m := &c35Model{w: w, stored: map[c35ID]bool{}}
-		dump := func() (string, c35ID, bool) {
+		dump := func() (string, map[uint64]c35ID) {
 			all, err := d.SignedTRCs(ctx, truststorage.TRCsQuery{})
 			if err != nil {
-				return "error:" + err.Error(), c35ID{}, false
+				return "error:" + err.Error(), nil
 			}
 			var ids []string
-			var best c35ID
-			found := false
+			latest := map[uint64]c35ID{} // per ISD
 			for _, s := range all {
 				name, ok := w.byRaw[string(s.Raw)]
 				if !ok {
 					name = s.TRC.ID.String() + ":unknown"
 				}
 				ids = append(ids, name)
-				id := c35ID{uint64(s.TRC.ID.Base), uint64(s.TRC.ID.Serial)}
-				if !found || c35Less(best, id) {
-					best, found = id, true
+				id := c35FromTRC(s.TRC.ID)
+				if best, found := latest[id.isdNum()]; !found || c35Less(best, id) {
+					latest[id.isdNum()] = id
 				}
 			}
 			sort.Strings(ids)
-			return fmt.Sprintf("t=%gh %s", time.Since(c35Epoch()).Hours(), strings.Join(ids, ",")), best, found
+			return fmt.Sprintf("t=%gh %s", time.Since(c35Epoch()).Hours(), strings.Join(ids, ",")), latest
 		}
 		for step, ev := range hist {
-			_, before, hadBefore := dump()
+			_, before := dump()
 			where := func(extra map[string]any) map[string]any {
 				extra["step"] = step
 				extra["event"] = ev.String()
@@ -463,7 +550,7 @@ func c35Replay(t *testing.T, r *mc.Run, w *c35World, hist []c35Ev) (canon string
 					return
 				}
 				for _, id := range w.dirIDs[ev.dir] {
-					f := filepath.Join(w.dirs[ev.dir], fmt.Sprintf("ISD1-B%d-S%d.trc", id.base, id.serial))
+					f := filepath.Join(w.dirs[ev.dir], id.file())
 					_, ignored := res.Ignored[f]
 					loaded := false
 					for _, l := range res.Loaded {
@@ -546,9 +633,11 @@ func c35Replay(t *testing.T, r *mc.Run, w *c35World, hist []c35Ev) (canon string
 					fail("notify:result:"+ev.class(), where(map[string]any{"notified": id.String(), "error": fmt.Sprint(nerr), "expected_error": wantErr}))
 				}
 			}
-			got, after, hasAfter := dump()
-			if hadBefore && (!hasAfter || c35Less(after, before)) {
-				fail("latest-regressed:"+ev.class(), where(map[string]any{"before": before.String(), "after": after.String()}))
+			got, after := dump()
+			for isd, b := range before {
+				if a, has := after[isd]; !has || c35Less(a, b) {
+					fail("latest-regressed:"+ev.class(), where(map[string]any{"before": b.String(), "after": a.String()}))
+				}
 			}
 			if got != m.canon() {
 				k := "store-differs-from-model:" + ev.class()
@@ -561,9 +650,159 @@ func c35Replay(t *testing.T, r *mc.Run, w *c35World, hist []c35Ev) (canon string
 				return
 			}
 		}
-		canon, _, _ = dump()
+		canon, _ = dump()
 	})
 	return canon, viol
+}
+
+// c35LoadMatrix: directory loading, flat enumeration. Store holding B1-S1..S3 of ISD 1; a directory with one TRC of
+// every kind (or all four kinds) whose validity starts at epoch-1h / epoch / epoch+1s / epoch+12h; clock at the epoch
+// or 12 h later; loaded with trust.LoadTRCs or one trust.TRCLoader, twice: at that clock and 12 h later. After every
+// load: a TRC whose validity has not started is reported as ignored, is not stored and does not change the latest
+// TRC of its ISD; every other one is stored (reported as loaded exactly when it was not stored before).
+func c35LoadMatrix(t *testing.T, r *mc.Run, w *c35World) {
+	type dirSpec struct {
+		what string
+		trcs []c35MatrixTRC
+	}
+	var specs []dirSpec
+	byStart := map[time.Duration][]c35MatrixTRC{}
+	for _, m := range w.matrix {
+		specs = append(specs, dirSpec{fmt.Sprintf("%s starting at epoch%+v", m.kind, m.start), []c35MatrixTRC{m}})
+		if m.kind != "sensitive-update" { // regular and sensitive update share the id B1-S4
+			byStart[m.start] = append(byStart[m.start], m)
+		}
+	}
+	for _, m := range w.matrix {
+		if l := byStart[m.start]; l != nil {
+			specs = append(specs, dirSpec{fmt.Sprintf("three kinds starting at epoch%+v", m.start), l})
+			delete(byStart, m.start)
+		}
+	}
+	fileOf := func(m c35MatrixTRC) string { return m.id.file() }
+	n := 0
+	for si, sp := range specs {
+		dir := filepath.Join(t.TempDir(), fmt.Sprintf("matrix%d", si))
+		if err := os.MkdirAll(dir, 0o755); err != nil {
+			r.HarnessError("matrix dir: %v", err)
+			return
+		}
+		for _, m := range sp.trcs {
+			if err := os.WriteFile(filepath.Join(dir, fileOf(m)), m.signed.Raw, 0o644); err != nil {
+				r.HarnessError("matrix file: %v", err)
+				return
+			}
+		}
+		for _, clock0 := range []time.Duration{0, 12 * time.Hour} {
+			for _, api := range []string{"LoadTRCs", "TRCLoader"} {
+				n++
+				name := fmt.Sprintf("directory with %s; clock epoch+%v then +12h; %s", sp.what, clock0, api)
+				synctest.Test(t, func(t *testing.T) {
+					d, err := sqlite.New(fmt.Sprintf("c35m-%d", c35DBCtr.Add(1)), &db.SqliteConfig{InMemory: true, MaxOpenReadConns: 2})
+					if err != nil {
+						r.HarnessError("sqlite: %v", err)
+						return
+					}
+					defer d.Close()
+					ctx := context.Background()
+					stored := map[string]string{} // raw -> name
+					for _, id := range []c35ID{c35I(1, 1), c35I(1, 2), c35I(1, 3)} {
+						if _, err := d.InsertTRC(ctx, w.legit[id]); err != nil {
+							r.HarnessError("seeding the store: %v", err)
+							return
+						}
+						stored[string(w.legit[id].Raw)] = id.String()
+					}
+					loader := &trust.TRCLoader{Dir: dir, DB: d}
+					time.Sleep(clock0)
+					for round := 0; round < 2; round++ {
+						if round == 1 {
+							time.Sleep(12 * time.Hour)
+						}
+						elapsed := time.Since(c35Epoch())
+						var res trust.LoadResult
+						var lerr error
+						if pn := mc.Safely(func() {
+							if api == "LoadTRCs" {
+								res, lerr = trust.LoadTRCs(ctx, dir, d)
+							} else {
+								res, lerr = loader.Load(ctx)
+							}
+						}); pn != nil {
+							r.Violation("load-matrix:panic", map[string]any{"case": name, "panic": fmt.Sprint(pn)})
+							return
+						}
+						if lerr != nil {
+							r.Violation("load-matrix:error", map[string]any{"case": name, "round": round, "error": lerr.Error()})
+							return
+						}
+						loaded := map[string]bool{}
+						for _, f := range res.Loaded {
+							loaded[f] = true
+						}
+						for _, m := range sp.trcs {
+							f := filepath.Join(dir, fileOf(m))
+							_, ignored := res.Ignored[f]
+							det := map[string]any{"case": name, "round": round, "trc": m.id.String(), "kind": m.kind, "validity_starts": fmt.Sprintf("epoch%+v", m.start),
+								"clock": fmt.Sprintf("epoch+%v", elapsed), "reported_loaded": loaded[f], "reported_ignored": fmt.Sprint(res.Ignored[f])}
+							switch {
+							case m.start > elapsed:
+								if loaded[f] || (!ignored && api == "LoadTRCs") || (!ignored && round == 0) {
+									r.Violation("load-matrix:future-trc-not-ignored:"+m.kind, det)
+								}
+								r.Outcome("matrix:" + m.kind + ":future-ignored")
+							case stored[string(m.signed.Raw)] != "":
+								if loaded[f] {
+									r.Violation("load-matrix:stored-trc-reported-as-loaded:"+m.kind, det)
+								}
+								r.Outcome("matrix:" + m.kind + ":already-stored")
+							default:
+								if !loaded[f] {
+									r.Violation("load-matrix:valid-trc-not-loaded:"+m.kind, det)
+								}
+								stored[string(m.signed.Raw)] = m.id.String() + "(" + m.kind + ")"
+								r.Outcome("matrix:" + m.kind + ":loaded")
+							}
+						}
+						// the store is exactly the model's set; the latest TRC per ISD follows from it
+						all, err := d.SignedTRCs(ctx, truststorage.TRCsQuery{})
+						if err != nil {
+							r.HarnessError("dumping the store: %v", err)
+							return
+						}
+						var got, want []string
+						for _, s := range all {
+							nm, ok := stored[string(s.Raw)]
+							if !ok {
+								nm = s.TRC.ID.String() + ":not-expected"
+								for _, m := range sp.trcs {
+									if string(m.signed.Raw) == string(s.Raw) {
+										nm = m.id.String() + "(" + m.kind + "):not-yet-valid"
+									}
+								}
+							}
+							got = append(got, nm)
+						}
+						for _, nm := range stored {
+							want = append(want, nm)
+						}
+						sort.Strings(got)
+						sort.Strings(want)
+						if strings.Join(got, ",") != strings.Join(want, ",") {
+							k := "load-matrix:store-differs-from-model"
+							if strings.Contains(strings.Join(got, ","), ":not-yet-valid") {
+								k = "load-matrix:not-yet-valid-trc-stored"
+							}
+							r.Violation(k, map[string]any{"case": name, "round": round, "clock": fmt.Sprintf("epoch+%v", elapsed), "store": got, "model": want})
+							return
+						}
+					}
+				})
+			}
+		}
+	}
+	r.CaseBulk(int64(n), int64(n))
+	r.Extra["load_matrix_cases"] = n
 }
 
 func TestC35(t *testing.T) {
@@ -572,13 +811,16 @@ func TestC35(t *testing.T) {
 	if err != nil {
 		t.Fatalf("HARNESS-ERROR building the TRC world: %v", err)
 	}
+	c35LoadMatrix(t, r, w)
 	menu := c35Menu()
 	depth := mc.Pick(5, 6)
 	r.Rule = fmt.Sprintf("breadth-first search over event histories up to length %d from the empty store; %d events: NotifyTRC with serial "+
 		"latest-1/latest/+1/+2/+3 (same base; other base with 0/+1/+2), for +k every position 1..k of a faulty step x {fetch error, bad vote "+
-		"signature, properly signed non-successor, TRC with another ID, storage error = InsertTRC of the verified TRC fails (wrapping DB)}; LoadTRCs from 3 directories (S1 | S2 + future S4 | other-base B3-S3 + future S5); "+
+		"signature, properly signed non-successor, TRC with another ID, storage error = InsertTRC of the verified TRC fails (wrapping DB)}; LoadTRCs from 4 directories (S1 | S2 + future S4 | other-base B3-S3 + future S5 | sensitive update B3-S5 + second trust-reset base B5-S5 + base TRC of unknown ISD 2, all three starting 12 h after the initial clock); "+
 		"Advance(12h) at most twice. A state is the sorted list of stored TRCs (legit / corrupted variant by bytes) plus the clock; distinct key = state; "+
-		"each transition is one full replay on a fresh sqlite DB compared step by step with the reference model", depth, len(menu))
+		"each transition is one full replay on a fresh sqlite DB compared step by step with the reference model. Before the search a flat matrix: directory with a TRC of kind "+
+		"{base of an unknown ISD, trust-reset base with a higher base number, regular update, sensitive update} (each alone, and three kinds together) x validity start epoch-1h/epoch/epoch+1s/epoch+12h x clock epoch / "+
+		"epoch+12h x {LoadTRCs, one TRCLoader}, loaded twice 12 h apart into a store holding B1-S1..S3", depth, len(menu))
 	st := mc.BFS(mc.Space[c35Ev]{
 		Replay: func(h []c35Ev) (string, *mc.Viol) { return c35Replay(t, r, w, h) },
 		Events: func(h []c35Ev) []c35Ev {
